@@ -203,6 +203,9 @@ def run_reader_scenario(p, wd):
              slice(0, None, 2), slice(1, None, 2), slice(nf, None), [names[-1]]]
     if nf >= 3:
         fsels += [[0, nf - 1], slice(1, 3), sorted(rng.sample(range(nf), 2)), [0, -1], names[:2]]
+    if nf >= 2:
+        # runs of consecutive indices counted from the end (ascending lists of negative indices), as lists and arrays
+        fsels += [[-2, -1], np.array(list(range(-nf, 0)))] + ([[-3, -2]] if nf >= 3 else [])
     bad_f = [nf, -nf - 1, "no_such_field", slice(None, None, -1), 1.5]
     if nf >= 2:
         bad_f += [[nf - 1, 0], [0, 0]]
